@@ -146,7 +146,7 @@ JudgeCUR(pp, gg, t, cur, nxt, ntime, tcur, tnext) ==
   \union (IF ~Mon_Next(pp, gg, cur, nxt, ntime, tnext) THEN {"Mon_Next"} ELSE {})
 
 (* The same below 2^31, where TLC can compute but cannot represent the 64-bit   *)
-(* constants: for p, g, r+1 <= 2^30 and times < 2^31 neither the guard nor the  *)
+(* constants: for p, r+1 <= 2^30 and g, times < 2^31 neither the guard nor the  *)
 (* buffer can be reached (Lemma_SmallIsExact, decided by Apalache on the 64-bit *)
 (* constants), so the transcription IS the ideal definition, the error value    *)
 (* cannot be a legitimate result and Mon_NoWrap reduces to exactness.           *)
